@@ -20,6 +20,9 @@ func EndBlocker(ctx sdk.Context, k keeper.Keeper) {
 		if !found || meta.CreatedAt+meta.Duration != uint64(ctx.BlockHeight()) {
 			continue
 		}
+		if len(meta.Commits) == 0 && k.CancelPendingFirstOrder(ctx, meta) {
+			continue
+		}
 		k.DeleteMeta(ctx, dataId)
 	}
 
